@@ -2012,6 +2012,94 @@ def rule_r23(chk, prog):
     chk.floor('C04.R23', 'arithmetic uses of None-tested values', n, 1)
 
 
+def rule_r24(chk, prog):
+    chk.rule('C04.R24', 'the string keys used on the small record '
+             'dictionaries of the main-process bookkeeping (statistics per '
+             'mutator, per pass) are keys the record is created with: within '
+             'a class / function that builds a dict display with literal '
+             'string keys, every literal string subscript on a local name '
+             'is one of those keys')
+    n = 0
+    for mn in ('strategy_hierarchical', 'strategy_ddmin', 'checker', 'cli',
+               'progress', 'debug_utils'):
+        m = prog.mod(mn)
+        scopes = []
+        for st in m.tree.body:
+            if isinstance(st, ast.ClassDef):
+                scopes.append((f'{mn}.{st.name}', st))
+            elif isinstance(st, ast.FunctionDef):
+                scopes.append((f'{mn}.{st.name}', st))
+        for where, sc in scopes:
+            keys = set()
+            for d in ast.walk(sc):
+                if isinstance(d, ast.Dict) and len(d.keys) >= 2 and all(
+                        isinstance(k_, ast.Constant) and isinstance(
+                            k_.value, str) for k_ in d.keys):
+                    keys |= {k_.value for k_ in d.keys}
+            if not keys:
+                continue
+            # a plain store creates its key
+            for x in ast.walk(sc):
+                if isinstance(x, ast.Subscript) and isinstance(
+                        x.ctx, ast.Store) and isinstance(
+                            x.slice, ast.Constant) and isinstance(
+                                x.slice.value, str) and not isinstance(
+                                    getattr(x, '_parent', None),
+                                    ast.AugAssign):
+                    keys.add(x.slice.value)
+            for x in ast.walk(sc):
+                if isinstance(x, ast.Subscript) and isinstance(
+                        x.value, ast.Name) and isinstance(
+                            x.slice, ast.Constant) and isinstance(
+                                x.slice.value, str):
+                    if isinstance(x.ctx, ast.Store) and not isinstance(
+                            getattr(x, '_parent', None), ast.AugAssign):
+                        continue
+                    n += 1
+                    chk.check('C04.R24', where, x, x.slice.value in keys,
+                              f'"{unparse(x)}" uses the key '
+                              f'{x.slice.value!r}, but the records of '
+                              f'{where} are created with the keys '
+                              f'{sorted(keys)}: KeyError in the main '
+                              'process as soon as that statement runs '
+                              '(e.g. only with -v and after the first '
+                              'accepted simplification)', loc=m.loc(x),
+                              nontrivial=True)
+    chk.floor('C04.R24', 'literal keys used on record dictionaries', n, 6)
+
+
+def rule_r25(chk, prog):
+    chk.rule('C04.R25', 'fields of the run record that are None for an '
+             'expired run (exit, out, err) are not formatted with a format '
+             'specification, used in arithmetic or searched, except under a '
+             'test that excludes None')
+    m = prog.mod('checker')
+    n = 0
+    for q, f in m.funcs.items():
+        if '<locals>' in q:
+            continue
+        for x in walk_no_nested(f):
+            if isinstance(x, ast.FormattedValue) and x.format_spec is not \
+                    None and isinstance(x.value, ast.Attribute) and \
+                    x.value.attr in ('exit', 'out', 'err') and any(
+                        isinstance(v_, ast.Constant) and v_.value
+                        for v_ in ast.walk(x.format_spec)):
+                n += 1
+                t = unparse(x.value)
+                facts = facts_at(f, x)
+                ok = (f'{t} is None', False) in facts or (
+                    f'{t} is not None', True) in facts
+                chk.check('C04.R25', f'checker.{q}', x, ok,
+                          f'"{unparse(x)[:40]}" formats {t} with a format '
+                          'specification; the field is None when the run '
+                          'expired (e.g. the golden run under an explicit '
+                          '--timeout): TypeError in the main process before '
+                          'minimisation starts', loc=m.loc(x),
+                          nontrivial=True)
+    chk.instance('C04.R25', 'checker', f'{n} formatted nullable fields',
+                 True, 'zero-count rule (witness: C04_41)')
+
+
 def run(tier):
     prog = Program()
     chk = Check(
@@ -2109,6 +2197,8 @@ def run(tier):
               'AssertionError in the main process (or in every worker) on a legal input')
     chk.guard(rule_r22, chk, prog)
     chk.guard(rule_r23, chk, prog)
+    chk.guard(rule_r24, chk, prog)
+    chk.guard(rule_r25, chk, prog)
     extra = None
     if tier == 'thorough':
         from .. import selftest
